@@ -109,7 +109,7 @@ def gen_labels_y(rng, n, fam=None):
 
 
 def gen(rng, thorough):
-    t = rng.choices(['dup', 'comb', 'seq', 'corr', 'labels', 'noisecat', 'noisemiss', 'down'], [12, 12, 10, 14, 18, 16, 8, 10])[0]
+    t = rng.choices(['dup', 'comb', 'seq', 'corr', 'labels', 'noisecat', 'noisemiss', 'down', 'branch'], [12, 12, 10, 14, 18, 16, 8, 10, 6])[0]
     d = gen_data_args(rng, thorough)
     c = {'t': t, 'data': d}
     w, n = d['n_features'], d['n_samples']
@@ -135,6 +135,15 @@ def gen(rng, thorough):
             ops.append([kind, idx, form])
             cur += 1 if kind == 'comb' else len(idx)
         c['ops'] = ops
+    elif t == 'branch':
+        def op(cur):
+            kind = rng.choice(['dup', 'dup', 'comb', 'corr'])
+            idx, form = gen_index(rng, cur if kind != 'corr' else w, allow_bad=False)
+            return [kind, idx, 'list' if kind == 'comb' else form]
+        c['first'] = op(w)
+        w1 = w + (1 if c['first'][0] == 'comb' else len(c['first'][1]))
+        c['a'], c['b'] = op(w1), op(w1)
+        c['npseed'] = rng.randrange(2 ** 31)
     elif t == 'corr':
         c['idx'], c['form'] = gen_index(rng, w, allow_bad=False)
         c['r'] = rng.choice([0.8, 0.5, -0.5, 0.999, -0.999, 1e-3, -1e-3, 0.0, 0.3, -0.9, rng.uniform(-0.99, 0.99), rng.uniform(-0.99, 0.99)])
@@ -358,6 +367,78 @@ def eval_seq(ctx, c, oracle_only, b):
             if m[0] != Y.shape[1] or mi != ii:
                 ctx.corr_fail('info', f'{short(c)}: dataset_info {ii} (width {Y.shape[1]}) differs from the model {mi} (width {m[0]})', c)
         b.ask([line(Atom(PROP), Atom('info'), w0, [[Atom(k), i] for k, i, _ in c['ops']])], cont)
+
+
+# ---- branching derivations: several data sets derived from ONE parent on one generator object --------------------
+
+def eval_branch(ctx, c, oracle_only, b):
+    """X1 = op0(X); Xa = opA(X1); Xb = opB(X1).  Every derived data set must be (and stay) the stated function of its sources:
+    a later call on the same parent must not alter a data set that was already returned."""
+    from scipy.stats import pearsonr
+    cc, X = make(c['data'])
+    X = X.copy()
+    X[0, :] += 1
+    X[-1, :] -= 1
+
+    def apply(Y, op):
+        kind, idx, form = op
+        if kind == 'comb':
+            return cc.generate_combinations(Y, list(idx))
+        if kind == 'corr':
+            return cc.generate_correlated(Y, idx_py(idx, form), r=0.5)
+        return cc.generate_duplicates(Y, idx_py(idx, form))
+
+    def wrong(parent, child, op):
+        """None, or what is wrong with `child` = op(parent)"""
+        kind, idx, form = op
+        w = parent.shape[1]
+        if child.shape[0] != parent.shape[0] or not np.array_equal(np.asarray(child[:, :w], dtype=float), np.asarray(parent, dtype=float)):
+            return 'the parent columns are not an unchanged prefix'
+        if kind == 'dup':
+            for j, src in enumerate(idx):
+                if not np.array_equal(np.asarray(child[:, w + j], dtype=float), np.asarray(parent[:, src], dtype=float)):
+                    return f'column {w + j} is not a copy of column {src}'
+        elif kind == 'comb':
+            if not np.array_equal(np.asarray(child[:, w], dtype=float), np.asarray(parent[:, list(idx)], dtype=float).sum(axis=1)):
+                return f'column {w} is not the sum of columns {list(idx)}'
+        else:
+            for j, src in enumerate(idx):
+                col = np.asarray(parent[:, src], dtype=float)
+                if np.all(col == col[0]):
+                    continue
+                with np.errstate(all='ignore'):
+                    pr = float(pearsonr(col, np.asarray(child[:, w + j], dtype=float))[0])
+                if not abs(pr - 0.5) <= 1e-9:
+                    return f'Pearson(column {src}, column {w + j}) = {pr!r}, requested 0.5'
+        return None
+
+    np.random.seed(c['npseed'])
+    with np.errstate(all='ignore'):
+        out, res = outcome(lambda: apply(X, c['first']))
+        if out != 'ok':
+            ctx.count('outcome:' + out)
+            return
+        X1 = res
+        X1s = np.array(X1, copy=True)
+        out, Xa = outcome(lambda: apply(X1, c['a']))
+        if out != 'ok':
+            ctx.count('outcome:' + out)
+            return
+        Xas = np.array(Xa, copy=True)
+        out, Xb = outcome(lambda: apply(X1, c['b']))
+    ctx.count('outcome:' + out)
+    if out != 'ok':
+        return
+    ctx.nontrivial.add(repr(c))
+    for nm, now, snap in (('the parent', X1, X1s), ('the first derived data set', Xa, Xas)):
+        if now.shape != snap.shape or not np.array_equal(np.asarray(now, dtype=float), np.asarray(snap, dtype=float), equal_nan=True):
+            ctx.oracle_fail('branch-aliasing', f'{short(c)}: {nm} changed after it was returned (a later derivation from the same parent wrote into it)', c)
+            return
+    for nm, child, op in (('first', Xa, c['a']), ('second', Xb, c['b'])):
+        w = wrong(X1s, child, op)
+        if w:
+            ctx.oracle_fail('branch-derivation', f'{short(c)}: the {nm} data set derived from the common parent by {op}: {w}', c)
+            return
 
 
 # ---- correlation --------------------------------------------------------------------------------
@@ -716,7 +797,7 @@ def eval_down(ctx, c, oracle_only, b):
            line(Atom(PROP), Atom('down'), [int(v) for v in y.tolist()], Atom('none') if n is None else n, resampled, bool(c['reshuffle']), tape)], cont)
 
 
-EVAL = {'dup': eval_dup, 'comb': eval_comb, 'seq': eval_seq, 'corr': eval_corr, 'labels': eval_labels, 'noisecat': eval_noisecat,
+EVAL = {'dup': eval_dup, 'comb': eval_comb, 'seq': eval_seq, 'branch': eval_branch, 'corr': eval_corr, 'labels': eval_labels, 'noisecat': eval_noisecat,
         'noisemiss': eval_noisemiss, 'down': eval_down}
 
 
@@ -726,6 +807,7 @@ def corpus():
         {'t': 'dup', 'data': d, 'idx': [0], 'form': 'int'},                                   # F12
         {'t': 'dup', 'data': d, 'idx': [0, 1], 'form': 'list'},
         {'t': 'seq', 'data': d, 'ops': [['dup', [0, 1], 'list'], ['comb', [0, 5], 'list'], ['corr', [2], 'int']]},
+        {'t': 'branch', 'data': d, 'first': ['dup', [0], 'int'], 'a': ['dup', [1], 'int'], 'b': ['dup', [2], 'int'], 'npseed': 3},
         {'t': 'noisecat', 'data': d, 'y': [0, 2, 0, 2, 2, 0, 0, 2, 2, 0, 2, 0], 'yfam': '02', 'p': 0.3, 'npseed': 1},          # F14
         {'t': 'noisecat', 'data': d, 'y': [0, 1, 0, 0, 0, 0, 0, 0, 0, 0, 0, 0], 'yfam': 'single1', 'p': 0.5, 'npseed': 1},    # one-sample class
         {'t': 'noisecat', 'data': d, 'y': [0, 1, 2, 0, 1, 2, 0, 1, 2, 0, 1, 2], 'yfam': '0k', 'p': 0.5, 'npseed': 3},
